@@ -203,9 +203,16 @@ func runPlan(t *testing.T, def *PropDef, p *Plan) (o *Outcome) {
 	running.Store(true)
 	defer running.Store(false)
 	progress()
+	lastDeadlock.Store(nil)
 	o = def.Run(t, p)
 	if o == nil {
 		o = &Outcome{}
+	}
+	if d := lastDeadlock.Load(); d != nil {
+		// a cycle of tasks each waiting for a lock the next one holds: reported whatever else the run's own
+		// oracle made of the commands that never completed
+		o.Sig = def.ID + "/deadlock/lock-order:" + d.On
+		o.Detail = "deadlock: " + d.Detail
 	}
 	return o
 }
